@@ -20,11 +20,9 @@ def impl_relatives(E, desc, cutoff, keep, starts, before=None):
                 if b0 != b1: edges.iloc[i, edges.columns.get_loc("Trg")] = b1
         df = find_relatives(nodes=nodes, nodes_key_col="id", edges=edges, relative_type="descendant" if desc else "ancestor", cutoff=cutoff, keep_paths=keep)
         pcols = sorted(c for c in df.columns if isinstance(c, int))
-        rows = []
-        for _, r in df.iterrows():
-            seq = [int(r[c]) for c in pcols if not pd.isna(r[c])] if keep else []
-            rows.append([int(r["id"]), int(r["len_path"]), int(r["end"]), seq])
-        return ["ok", sorted(rows)]
+        ids, lens, ends = df["id"].tolist(), df["len_path"].tolist(), df["end"].tolist()
+        seqs = [[int(x) for x in row if not pd.isna(x)] for row in df[pcols].itertuples(index=False, name=None)] if keep else [[] for _ in ids]
+        return ["ok", sorted([int(a), int(b), int(c), q] for a, b, c, q in zip(ids, lens, ends, seqs))]
     except BaseException as e:
         return ["err"]
 
@@ -128,7 +126,9 @@ def judge(kind, p):
                 sig = "C13/walks"
                 if out[0] == "ok" and sorted((r[0], r[1], r[3]) for r in out[1]) == sorted((r[0], r[1], r[3]) for r in spec): sig = "C13/end-column"
                 fails.append((sig, "rows %r, walks are %r" % (out, spec)))
-        nontriv = len(E) >= 2 and (len(set(E)) < len(E) or (cutoff is not None) or len(starts) > 1 or any(sum(1 for e in E if e[1] == v) > 1 for v in set(b for _, b in E)))
+        import collections
+        indeg = collections.Counter(b for _, b in E)
+        nontriv = len(E) >= 2 and (len(set(E)) < len(E) or (cutoff is not None) or len(starts) > 1 or any(c > 1 for c in indeg.values()))
         return out, nontriv, fails
     if kind == "paths":
         names, refs, root, tnames = p
@@ -144,7 +144,11 @@ def judge(kind, p):
         return out, tree and len(ws) > 2, fails
     raise ValueError(kind)
 
-def oracle_case(case): return judge(case["kind"], case["args"])[2]
+def oracle_case(case):
+    if case.get("kind") == "fan":
+        W = case["width"]; fan = [(0, 1000 + i) for i in range(W)] + [(1000 + i, 200000 + i) for i in range(W)]
+        return [(sig, d[:300]) for sig, d in judge("relatives", (fan, case["desc"], case["cutoff"], case["keep"], case["starts"]))[2]]
+    return judge(case["kind"], case["args"])[2]
 
 def check(ctx):
     rng = ctx.rng
@@ -207,6 +211,13 @@ def check(ctx):
         Esel = [[r[0], r[1]] for r in refs if r[2] in tids]
         reqs.append([Sym("c13_paths"), [[i, names[i]] for i in sorted(names)], Esel, root])
         meta.append(("paths", (sorted(names.items()), refs, root, tnames), feats))
+    # one level wider than 50000 rows (a two-level fan of 50001): judged by the walk oracle only - the extracted model is not run on 100000 edges
+    W = 50001
+    fan = [(0, 1000 + i) for i in range(W)] + [(1000 + i, 200000 + i) for i in range(W)]
+    for desc, cutoff, keep, starts in ((True, None, False, [0]), (False, 2, True, [200000, 200000 + W - 1])):
+        out, nontriv, fails = judge("relatives", (fan, desc, cutoff, keep, starts))
+        ctx.record(["relatives", "fan-%d" % W, desc, cutoff, keep, starts], True, ["wide-level", "desc" if desc else "anc"])
+        for sig, detail in fails: ctx.fail(sig, dict(kind="fan", width=W, desc=desc, cutoff=cutoff, keep=keep, starts=starts), detail[:300])
     ans = vlib.run_model(reqs, shards=8)
     for (kind, p, feats), a in zip(meta, ans):
         mo = dec_rows(a) if kind.startswith("relatives") else dec_paths(a)
